@@ -12,6 +12,8 @@ CHECKS = {
             "Histories are bounded by T rounds per algorithm (T in evidence); known findings (POO rhomax<0.832, VROOM non-binary, early get_last_point of GPO/StroquOOL) are listed in known_findings.json.", "§3 C01"),
     "C02": ("One-step symbolic check of make_children of all five partition classes on an arbitrary box (= arbitrary cell): arity, containment, chain of shared faces (same term = bit-identical), outer faces are the parent's own terms, equal sizes, centre representatives, parent box untouched; all split dimensions and all split draws of the closed interval. Leaves-tile-the-domain follows by induction on expansions (paper argument).",
             "K and d bounded as in evidence; floating-point rounding of the boundaries is the subject of the FP lemmas, not of this real-arithmetic run.", "§3 C02"),
+    "C03": ("Three solver-driven parts on the real partition code: (1) make_children on a cell whose (depth, index) label is a pair of integer solver variables: z3 proves child j gets depth h+1 and index K(i-1)+j+1 and that children of cells i != i' have disjoint labels (all 5 classes, K 2..6, d 1..3); (2) every interleaving of deepen()/make_children(leaf) up to m operations with the structural invariant INV evaluated on the object graph after each; (3) INV, leaf-only expansion and the newlayer flag after every call of every algorithm under every reward history within the C01 bounds.",
+            "Part 2 is bounded-exhaustive enumeration of finite choices driven by the engine; uniqueness of labels for whole trees follows from part 1 by induction (paper argument).", "§3 C03"),
 }
 
 NOT_YET = {}
